@@ -18,7 +18,7 @@ ASSUMPTIONS = [
     "produced by that vid's signer; for unsigned traffic to a non-authic receiver only 'does not raise' is demanded",
     "a gram count of 0 in a zeroth gram is a don't-care (hio delivers an empty memo)",
 ]
-SRC = "peer:9"
+SRC = ("10.0.0.9", 9009)      # a (host, port) duple, as datagrams from udp.PeerMemoer carry
 MEMO = "hé:wörld"           # 10 bytes
 MEMO3 = "hé:wörld:thrée:" * 4    # 68 bytes (a signed base64 gram other than the zeroth carries at least 45)
 ALPHA12 = [0x62, 0x41, 0x42, 0x43, 0x4a, 0x5a, 0x63, 0x6c, 0x00, 0x01, 0x09, 0xff]
@@ -35,7 +35,9 @@ def RULE(tier):
             "every byte position of every gram of the valid memos a mutated copy (lowest and highest bit flipped) delivered together "
             "with ALL intact grams in every one of the (n+1)! delivery orders (mutant ahead of the zeroth gram, ahead of its own "
             "original, ...); (f) memo-id reuse: two 2-gram memos with the same memo id from two different signers, every delivery "
-            "sequence of length <= %d over their four grams (replays after completion, interleavings, mixtures). Oracle: no "
+            "sequence of length <= %d over their four grams (replays after completion, interleavings, mixtures); (g) a signer with a transferable vid signing with its original or "
+            "a rotated key against receivers whose keep holds that key, the other key, a third key or no entry; hostile datagrams come "
+            "from a (host, port) source as real UDP traffic does. Oracle: no "
             "exception escapes serviceAllRx (key = escape:<innermost hio frame>:<type>); authic receivers deliver only memos all of "
             "whose grams verify for the claimed signer and equal the original; crafted sets deliver exactly when grams 0..count-1 are "
             "present. Every case is a distinct datagram sequence." % (
@@ -77,6 +79,8 @@ def jobs(tier):
             for curt in (False, True):
                 js.append(("craft", authic, code, curt))
                 js.append(("reuse", authic, code, curt))
+                if code in ms.SIGNED:
+                    js.append(("keep", authic, code, curt))
         for code, curt, ng in corpus_configs(tier):
             for gi in range(ng):
                 js.append(("orders", authic, code, curt, ng, gi))
@@ -296,6 +300,44 @@ def run_reuse(authic, code, curt, seq):
     return ("reuse", None if ex is None else (ms.site_of(ex), type(ex).__name__), tuple((x[0], x[2] == ms.ALICE.vid) for x in got)), viols
 
 
+SEED0, SEED1, SEED2 = bytes(range(40, 72)), bytes(range(140, 172)), bytes(range(60, 92))
+
+
+def run_keep(authic, code, curt, signer_key, keep_key, order):
+    """a signer with a transferable vid (made from key 0) signs with key `signer_key` (0: not rotated, 1: rotated); the receiver's
+    keep holds key `keep_key` for that vid (0, 1, 2 = some other key, -1 = no entry). The memo may be delivered only when the
+    receiver's keep names the key that signed it."""
+    who = ms.trans_signer(SEED0, SEED0 if signer_key == 0 else SEED1)
+    ms.UUID.reset(0)
+    grams = None
+    for size in range(ms.min_size(code, curt), ms.min_size(code, curt) + 200):
+        g, eff, ex = ms.rend(code, curt, size, MEMO, who)
+        if ex is None and len(g) == 2:
+            grams = g
+            break
+        ms.UUID.reset(0)
+    if grams is None:
+        return ("keep", "no-grams"), [("keep-corpus:rend-failed", "no 2-gram rendering for a transferable vid, code=%s curt=%s" % (code, curt))]
+    keep = {}
+    if keep_key >= 0:
+        kk = ms.trans_signer(SEED0, (SEED0, SEED1, SEED2)[keep_key])
+        keep = {who.vid: ms.Keyage(qvk=kk.keep[kk.vid].qvk, qss=None)}
+    r = ms.receiver(authic, keep=keep)
+    seq = list(grams) if order == 0 else list(reversed(grams))
+    viols = []
+    ex = ms.deliver(r, [(x, SRC) for x in seq])
+    what = "transferable vid, signed with key %d, receiver's keep holds %s, %s grams in order %s (authic=%s)" % (
+        signer_key, "no entry" if keep_key < 0 else "key %d" % keep_key, "b2" if curt else "b64", "0,1" if order == 0 else "1,0", authic)
+    judge_escape(ex, viols, what)
+    got = [tuple(x) for x in r.inbox]
+    if authic and got and keep_key != signer_key:
+        viols.append(("unauthentic-delivered:authic:transferable-vid:%s" % ("no-keep-entry" if keep_key < 0 else "other-key-in-keep"),
+                      "%s: delivered %r although the signing key is not the one the receiver holds for that vid" % (what, got)))
+    if authic and keep_key == signer_key and order == 0 and ex is None and got != [(MEMO, SRC, who.vid)]:
+        viols.append(("authentic-not-delivered:transferable-vid", "%s: inbox %r" % (what, got)))
+    return ("keep", None if ex is None else (ms.site_of(ex), type(ex).__name__), len(got)), viols
+
+
 # ---------------------------------------------------------------- cases <-> jobs
 def run_case(job, case):
     kind, authic = job[0], bool(job[1])
@@ -324,6 +366,8 @@ def run_case(job, case):
         return run_order(authic, code, curt, ng, gi, case[0], case[1], case[2])
     if kind == "reuse":
         return run_reuse(authic, job[2], bool(job[3]), case)
+    if kind == "keep":
+        return run_keep(authic, job[2], bool(job[3]), case[0], case[1], case[2])
     raise ValueError(kind)
 
 
@@ -383,6 +427,11 @@ def run_job(job, tier, seed):
             for val in (g[pos] ^ 0x01, g[pos] ^ 0x80):
                 for pi in range(len(order_perms(ng))):
                     do([pos, val, pi], dict(code=code, curt=curt, gram=gi, pos=pos, value=val, order=list(order_perms(ng)[pi])))
+    elif kind == "keep":
+        for signer_key in (0, 1):
+            for keep_key in (0, 1, 2, -1):
+                for order in (0, 1):
+                    do([signer_key, keep_key, order], dict(code=job[2], curt=job[3], signer_key=signer_key, keep_key=keep_key, order=order))
     elif kind == "reuse":
         for n in range(1, (5 if tier == "quick" else 6) + 1):
             for seq in product(range(4), repeat=n):
